@@ -23,6 +23,7 @@ import traceback
 
 ROOT = os.path.dirname(os.path.dirname(os.path.abspath(__file__)))
 KNOWN = os.path.join(ROOT, 'known_findings.txt')
+OUT = os.environ.get('VERIF_OUT_DIR') or ROOT      # evidence/ and replays/ go here (redirected only when trying seeded changes)
 
 
 def load_known(pid):
@@ -43,6 +44,8 @@ def load_known(pid):
 def _worker(args):
     pid, task = args
     t0 = time.time()
+    if os.environ.get('VERIF_VERBOSE'):
+        print('start %s (worker %d)' % (task.get('name'), os.getpid()), file=sys.stderr, flush=True)
     try:
         mod = importlib.import_module('harness.' + pid.lower())
         res = mod.run_task(task)
@@ -54,6 +57,8 @@ def _worker(args):
             sys.modules['pysym.shims'].reset_all()
     res['task'] = task
     res['wall_s'] = round(time.time() - t0, 3)
+    if os.environ.get('VERIF_VERBOSE'):
+        print('done %s %.1fs' % (task.get('name'), res['wall_s']), file=sys.stderr, flush=True)
     try:
         res = json.loads(json.dumps(res, default=lambda o: '<%s>' % type(o).__name__))
     except Exception as ex:  # noqa
@@ -75,7 +80,7 @@ def run_replays(pid, cases, timeout=600):
     """replay cases on the unpatched code in a fresh interpreter; returns list of verdict dicts"""
     if not cases:
         return []
-    tmp = os.path.join(ROOT, 'replays', pid, '_batch_%d.json' % os.getpid())
+    tmp = os.path.join(OUT, 'replays', pid, '_batch_%d.json' % os.getpid())
     os.makedirs(os.path.dirname(tmp), exist_ok=True)
     json.dump(cases, open(tmp, 'w'))
     try:
@@ -218,7 +223,7 @@ def main(argv=None):
         if missing_w and not a.only:
             status = 2; reasons.append('missing coverage witnesses: %s' % missing_w)
     # ---- replay files + stdout lines ----------------------------------------------------------------
-    rdir = os.path.join(ROOT, 'replays', pid)
+    rdir = os.path.join(OUT, 'replays', pid)
     os.makedirs(rdir, exist_ok=True)
     vio_files = []
     for c in violations[:10]:
@@ -282,8 +287,8 @@ def main(argv=None):
         'coverage': cov, 'assumptions': desc.get('assumptions', []), 'wall_s': wall,
         'violations': len(violations),
     }
-    os.makedirs(os.path.join(ROOT, 'evidence'), exist_ok=True)
-    json.dump(ev, open(os.path.join(ROOT, 'evidence', pid + '.json'), 'w'), indent=1, default=str)
+    os.makedirs(os.path.join(OUT, 'evidence'), exist_ok=True)
+    json.dump(ev, open(os.path.join(OUT, 'evidence', pid + '.json'), 'w'), indent=1, default=str)
     print('%s tier=%s paths=%d queries=%d unsat=%d sat=%d unknown=%d solver_s=%.1f wall=%.1fs status=%d %s' % (
         pid, tier, agg['paths'], agg['queries'], agg['unsat'], agg['sat'], agg['unknown'], agg['solve_s'], wall, status,
         '; '.join(reasons)))
